@@ -179,6 +179,15 @@ pub fn thrift_docs() -> Vec<SDoc> {
                     fd(37, "dups", Optional, list(STy::String), Lit::List(vec![Lit::Str("a".into()), Lit::Str("b".into()), Lit::Str("a".into())])),
                     fd(38, "bools", Default, list(STy::Bool), Lit::List(vec![Lit::Int(1), Lit::Int(0), Lit::Int(1)])),
                     fd(39, "ml", Default, map(STy::String, list(STy::I32)), Lit::Map(vec![(Lit::Str("k".into()), Lit::List(vec![Lit::Int(5), Lit::Int(5)]))])),
+                    // hexadecimal literals (negative ones keep their sign) and the escapes pilota's IDL grammar knows (\\n, \\\\, \\", \\')
+                    fd(40, "neg_hex", Default, STy::I32, Lit::Hex(-16)),
+                    fd(41, "hexes", Default, list(STy::I64), Lit::List(vec![Lit::Hex(-255), Lit::Hex(4096), Lit::Int(-1)])),
+                    fd(42, "d_neg_hex", Optional, STy::Double, Lit::Hex(-2)),
+                    fd(43, "by_hex", Default, STy::Byte, Lit::Hex(-127)),
+                    fd(44, "esc", Default, STy::String, Lit::Str("line1\\nline2\\\\bs \\\"q\\\"".into())),
+                    fd(45, "esc_bin", Optional, STy::Binary, Lit::Str("a\\\\b\\n".into())),
+                    fd(46, "big", Optional, STy::I64, Lit::Int(5000000000)),
+                    fd(47, "big_neg", Default, STy::I64, Lit::Int(-3000000000)),
                     fd(1, "i_opt", Optional, STy::I32, Lit::Int(-5)),
                     fd(2, "i_def", Default, STy::I32, Lit::Int(123456)),
                     fd(3, "i_req", Required, STy::I32, Lit::Int(3)),
@@ -346,6 +355,10 @@ pub fn proto_docs() -> Vec<crate::pschema::PDoc> {
         fields.push(PField { number: 206, name: "one_msg".into(), ty: PTy::Message(inner_ref.clone()), label: Label::Oneof(1) });
         fields.push(PField { number: 207, name: "one_kind".into(), ty: PTy::Enum(kind_ref), label: Label::Oneof(1) });
         fields.push(PField { number: 536870911, name: "last".into(), ty: PTy::Scalar(Sc::Fixed32), label: Label::Optional });
+        // field numbers on both sides of every key-length border (16, 2^11, 2^18, 2^25)
+        for (i, num) in [16u32, 17, 262143, 262144, 33554431, 33554432].into_iter().enumerate() {
+            fields.push(PField { number: num, name: format!("key_edge_{}", num), ty: PTy::Scalar([Sc::Uint32, Sc::String, Sc::Bool][i % 3]), label: if i % 2 == 0 { Label::Optional } else { Label::Repeated } });
+        }
         fields.push(PField { number: 2047, name: "two_byte_key_edge".into(), ty: PTy::Scalar(Sc::Uint64), label: Label::Optional });
         fields.push(PField { number: 2048, name: "three_byte_key".into(), ty: PTy::Scalar(Sc::Sfixed64), label: Label::Repeated });
         let all = PMessage { name: "All".into(), fields, oneofs: vec!["pick".into(), "other".into()], nested: vec![inner], enums: vec![kind] };
@@ -372,5 +385,34 @@ pub fn proto_docs() -> Vec<crate::pschema::PDoc> {
             services: vec![("Greeter".into(), vec![("Say".into(), Ref { file, path: vec!["All".into()] }, Ref { file, path: vec!["Tree".into()] }, false, false), ("Chat".into(), Ref { file, path: vec!["Tree".into()] }, Ref { file, path: vec!["Tree".into()] }, true, true)])],
         }
     };
-    vec![PDoc { files: vec![mk(true, "kp3", vec!["kit".into(), "p3".into()])] }, PDoc { files: vec![mk(false, "kp2", vec![])] }]
+    // ---- imports: one package is a prefix of another (geo, geo.shapes), two imported files
+    // share a package (geo), and the importing file refers to types of all three
+    let sc = |n: u32, name: &str, s: Sc| PField { number: n, name: name.into(), ty: PTy::Scalar(s), label: Label::Plain };
+    let msg = |n: u32, name: &str, file: usize, path: &[&str], label: Label| PField { number: n, name: name.into(), ty: PTy::Message(Ref { file, path: path.iter().map(|s| s.to_string()).collect() }), label };
+    let plain = |name: &str, fields: Vec<PField>| PMessage { name: name.into(), fields, oneofs: vec![], nested: vec![], enums: vec![] };
+    let pfile = |stem: &str, pkg: &[&str], imports: Vec<usize>, messages: Vec<PMessage>| PFile { stem: stem.into(), proto3: true, package: pkg.iter().map(|s| s.to_string()).collect(), imports, messages, enums: vec![], services: vec![] };
+    let imports_doc = PDoc {
+        files: vec![
+            pfile(
+                "kshop",
+                &["shop"],
+                vec![1, 2, 3],
+                vec![plain(
+                    "Order",
+                    vec![
+                        msg(1, "p", 1, &["Point"], Label::Optional),
+                        msg(2, "c", 2, &["Circle"], Label::Optional),
+                        msg(3, "e", 3, &["Extra"], Label::Optional),
+                        msg(4, "cs", 2, &["Circle"], Label::Repeated),
+                        msg(5, "m", 3, &["Extra"], Label::Map(Sc::String)),
+                        sc(6, "n", Sc::Sint64),
+                    ],
+                )],
+            ),
+            pfile("kgeo", &["geo"], vec![], vec![plain("Point", vec![sc(1, "x", Sc::Int32), sc(2, "y", Sc::Sfixed32)])]),
+            pfile("kshapes", &["geo", "shapes"], vec![1], vec![plain("Circle", vec![msg(1, "center", 1, &["Point"], Label::Optional), sc(2, "r", Sc::Double)])]),
+            pfile("kgeo2", &["geo"], vec![], vec![plain("Extra", vec![sc(1, "note", Sc::String), sc(2, "w", Sc::Fixed64)])]),
+        ],
+    };
+    vec![PDoc { files: vec![mk(true, "kp3", vec!["kit".into(), "p3".into()])] }, PDoc { files: vec![mk(false, "kp2", vec![])] }, imports_doc]
 }
